@@ -198,6 +198,13 @@ class Check:
         )
         print("\n".join(out))
         sys.stdout.flush()
+        rj = os.environ.get("QV_RESULT_JSON")
+        if rj:
+            with open(rj, "w", encoding="utf-8") as fh:
+                json.dump({"property": self.pid, "exit": code,
+                           "violated": [[o.rule, o.construct, o.where, o.detail[:300]] for o in violations],
+                           "known": [[o.rule, o.construct] for o in known_hit],
+                           "errors": self.errors, "functions_analysed": self.functions_analysed}, fh)
         if write_evidence and not os.environ.get("QV_NO_EVIDENCE"):
             self.write_evidence(violations, known_hit)
         return code
